@@ -94,7 +94,13 @@ def abstract_nl(terms, memo=None):
         memo[tid] = (t, r)      # keep t alive: ast ids are reused after garbage collection
         return r
 
-    return [rec(z3.simplify(t)) for t in terms]
+    def simp(t):
+        k = ("s", t.get_id())
+        if k not in memo:
+            memo[k] = (t, z3.simplify(t))
+        return memo[k][1]
+
+    return [rec(simp(t)) for t in terms]
 
 
 
@@ -157,6 +163,17 @@ class Ctx:
             return hit[1]
         if hit is not None and hit[1]:
             return True            # hypotheses only grow along a path: once implied, always implied
+        s = self._q_sync()
+        s.push()
+        s.add(abstract_nl([b], self._absmemo)[0])
+        r = s.check() == z3.unsat
+        s.pop()
+        self.stats["fold_queries"] = self.stats.get("fold_queries", 0) + 1
+        self._fcache[h] = ((len(self.pc), len(self.facts)), r)
+        return r
+
+    def _q_sync(self):
+        """the incremental solver of known_false, brought up to date with the current hypotheses"""
         s = self._qs
         if s is None:
             s = self._qs = z3.Solver()
@@ -168,13 +185,7 @@ class Ctx:
             for h_ in abstract_nl(new, self._absmemo):
                 s.add(h_)
         self._sync = [len(self.pc), len(self.facts)]
-        s.push()
-        s.add(abstract_nl([b], self._absmemo)[0])
-        r = s.check() == z3.unsat
-        s.pop()
-        self.stats["fold_queries"] = self.stats.get("fold_queries", 0) + 1
-        self._fcache[h] = ((len(self.pc), len(self.facts)), r)
-        return r
+        return s
 
     def assume(self, b):
         b = zb(b)
@@ -235,23 +246,34 @@ class Ctx:
         stack = [[]]
         outer = (self.decisions, self.prefix, self.forks)
         npc, nf = len(self.pc), len(self.facts)
+        qs = self._q_sync() if self.fold_flags else None
+        saved_sync = list(self._sync) if qs is not None else None
+        saved_cache = dict(self._fcache)
         try:
             while stack:
                 pre = stack.pop()
                 self.decisions, self.prefix, self.forks = [], pre, set()
                 res = None
+                if qs is not None:
+                    qs.push()
                 try:
-                    res = ("value", thunk())
-                except PathInfeasible:
-                    res = None
-                except PyRaise as e:
-                    res = ("raise", e)
-                conds = list(self.pc[npc:])
-                newfacts = list(self.facts[nf:])
-                del self.pc[npc:]
-                del self.facts[nf:]
-                self._fcache = {}
-                self._qs = None
+                    try:
+                        res = ("value", thunk())
+                    except PathInfeasible:
+                        res = None
+                    except PyRaise as e:
+                        res = ("raise", e)
+                finally:
+                    conds = list(self.pc[npc:])
+                    newfacts = list(self.facts[nf:])
+                    del self.pc[npc:]
+                    del self.facts[nf:]
+                    if qs is not None and self._qs is qs:
+                        qs.pop()
+                        self._sync = list(saved_sync)
+                    else:
+                        self._qs = None
+                    self._fcache = dict(saved_cache)
                 pcnd = z3.And(*conds) if len(conds) > 1 else (conds[0] if conds else z3.BoolVal(True))
                 kept.extend(z3.Implies(pcnd, f) for f in newfacts)
                 if res is not None:
@@ -263,9 +285,6 @@ class Ctx:
                     raise Unsupported("too many paths in a merged computation")
         finally:
             self.decisions, self.prefix, self.forks = outer
-            del self.pc[npc:]
-            self._fcache = {}
-            self._qs = None
         for f in kept:
             self.facts.append(f)
         return out
